@@ -232,9 +232,9 @@ def _iterate_discover_portal(v, v1, v2, search_direction, portal_size):
 
 @numba.njit(cache=True)
 def _swap_vertices(v, v1, v2, idx1, idx2):
-    tmp = v[idx1]
-    tmp1 = v1[idx1]
-    tmp2 = v2[idx1]
+    tmp = v[idx1].copy()
+    tmp1 = v1[idx1].copy()
+    tmp2 = v2[idx1].copy()
     v[idx1] = v[idx2]
     v1[idx1] = v1[idx2]
     v2[idx1] = v2[idx2]
